@@ -1303,25 +1303,134 @@ def compare_node(model, nodeobs):
 _srv_counter = iter(range(1, 1 << 30))
 
 
-def make_server(paths, base):
-    """the REAL `Server` object for a list of config files (`Server.__init__`: `load_config`, node section, interface)"""
+def make_server(paths, base, confdir=None, parsed=None):
+    """the REAL `Server` object for a list of config files or config names (`Server.__init__`: `load_config` with
+    `to_config_path`, node section, interface).  confdir: the configuration directories, in order; parsed: a list which
+    gets the path of every file `process_file` is called for (recording only)"""
     import signal
     import mlzlog
     from pathlib import Path
+    import frappy.config
     from frappy.lib import generalConfig
     from frappy.server import Server
     from vlib.node import patch_version
     patch_version()
-    generalConfig.testinit(piddir=Path(base))
+    if confdir is None:
+        generalConfig.testinit(piddir=Path(base))
+    else:
+        generalConfig.testinit(piddir=Path(base), confdir=[Path(d) for d in confdir])
     old = {sig: signal.getsignal(sig) for sig in (signal.SIGINT, signal.SIGTERM)}     # Server installs its own handlers
+    real_process_file = frappy.config.process_file
+
+    def recording(filename, log):
+        if parsed is not None:
+            parsed.append(str(filename))
+        return real_process_file(filename, log)
+    frappy.config.process_file = recording
     logging.disable(logging.CRITICAL)
     try:
         return Server('verifc10', mlzlog.MLZLogger('fvs%d' % next(_srv_counter)), cfgfiles=list(paths),
                       interface='tcp://5000', testonly=True)
     finally:
+        frappy.config.process_file = real_process_file
         logging.disable(logging.NOTSET)
         for sig, h in old.items():
             signal.signal(sig, h)
+
+
+SUFFIXES = ['_cfg.py', '.py', '']
+
+
+def split_path(path, base, ndirs):
+    """path of a parsed file -> [directory label, file name] as sent to Lean ('' + full path for a file outside the
+    configuration directories)"""
+    path = str(path)
+    for d in range(ndirs):
+        pre = os.path.join(base, f'd{d}') + os.sep
+        if path.startswith(pre) and os.sep not in path[len(pre):]:
+            return [f'd{d}', path[len(pre):]]
+    return ['', path[len(base) + 1:] if path.startswith(base + os.sep) else path]
+
+
+def lookup_requests(lk):
+    q = {'files': lk['files'], 'dirs': lk['dirs'], 'refs': lk['refs']}
+    return [dict(q, p='C10', k='lookup'), dict(q, p='C10', k='judge_lookup', loaded=lk['loaded'])]
+
+
+def gen_lookup_case(rng):
+    """which file is applied: 1-3 configuration directories, 1-2 configuration names, each present in any subset of
+    (directory, suffix) places - also in none -, sometimes a file given by its path"""
+    ndirs = rng.choice([1, 2, 2, 3, 3])
+    names = rng.sample(['cryo', 'x', 'stick_a'], rng.choice([1, 1, 2]))
+    places = []
+    for n in names:
+        slots = [(d, sfx) for d in range(ndirs) for sfx in SUFFIXES]
+        k = rng.choice([0, 1, 1, 2, 2, 2, 3, 4, len(slots)])
+        for d, sfx in rng.sample(slots, min(k, len(slots))):
+            places.append([d, n + sfx])
+    refs = [{'name': n} for n in names]
+    if rng.random() < 0.2:
+        refs.insert(rng.randint(0, len(refs)), {'path': rng.choice(['sub/other_cfg.py', 'sub/plain'])})
+        if rng.random() < 0.8:
+            places.append([None, refs[[i for i, r in enumerate(refs) if 'path' in r][0]]['path']])
+    order = list(range(ndirs))
+    rng.shuffle(order)                              # the order of confdir is not the order of creation / of the names
+    return {'ndirs': ndirs, 'order': order, 'places': places, 'refs': refs}
+
+
+def run_lookup_case(lc):
+    """write the files, let the REAL Server load the references (Server.__init__ -> load_config -> to_config_path /
+    process_file) -> what exists, what was asked for, which files were parsed, and which file's CONTENT is in the loaded
+    configuration (every file defines its own equipment id and a module named after the reference, described by its place)"""
+    from frappy.errors import ConfigError
+    base = tempfile.mkdtemp(prefix='verif-c10-lk-')
+    try:
+        os.mkdir(os.path.join(base, 'sub'))
+        for d in range(lc['ndirs']):
+            os.mkdir(os.path.join(base, f'd{d}'))
+        files = []
+        for d, fn in lc['places']:
+            path = os.path.join(base, fn) if d is None else os.path.join(base, f'd{d}', fn)
+            label = ['', fn] if d is None else [f'd{d}', fn]
+            files.append(label)
+            stem = os.path.basename(fn)
+            for sfx in ('_cfg.py', '.py'):
+                if stem.endswith(sfx):
+                    stem = stem[:-len(sfx)]
+                    break
+            with open(path, 'w', encoding='utf-8') as fh:
+                fh.write(f"Node({'|'.join(label)!r}, 'file', interface='tcp://5000')\n"
+                         f"Mod({'mod_' + stem!r}, 'frappy.modules.Module', {'|'.join(label)!r})\n")
+        dirs = [f'd{d}' for d in lc['order']]
+        refs = [dict(r) for r in lc['refs']]
+        args = [os.path.join(base, r['path']) if 'path' in r else r['name'] for r in refs]
+        parsed = []
+        try:
+            srv = make_server(args, base, confdir=[os.path.join(base, d) for d in dirs], parsed=parsed)
+            loaded = [split_path(p, base, lc['ndirs']) for p in parsed]
+            cfg = srv.module_cfg
+            content = []
+            for i, r in enumerate(refs):
+                stem = os.path.basename(r['path']) if 'path' in r else r['name']
+                for sfx in ('_cfg.py', '.py'):
+                    if stem.endswith(sfx):
+                        stem = stem[:-len(sfx)]
+                        break
+                mod = cfg.get('mod_' + stem)
+                desc = mod.get('description') if mod else None
+                if isinstance(desc, dict):
+                    desc = desc.get('value')
+                content.append(str(desc).split('|', 1) if desc else ['?', '?'])
+            first = str(srv.node_cfg.get('equipment_id')).split('|', 1)
+        except ConfigError:
+            loaded, content, first = None, None, None
+        finally:
+            ld = logging.Logger.manager.loggerDict
+            for k in [k for k in ld if k.startswith('fv')]:
+                del ld[k]
+        return {'files': files, 'dirs': dirs, 'refs': refs, 'loaded': loaded, 'content': content, 'first': first}
+    finally:
+        shutil.rmtree(base, ignore_errors=True)
 
 
 def server_node(srv):
@@ -1411,6 +1520,12 @@ def gen_case(rng, idx):
                 extra.append({'name': mo['name'], 'cls': spec['id'], 'entries': entries, 'kinds': kinds, 'file': f})
     assign_attachments(rng, specs, mods + extra, 0.85 if clean else 0.55)
     case = {'specs': specs, 'path': path, 'nfiles': nfiles, 'mods': mods + extra}
+    if path == 'dsl' and rng.random() < 0.7:
+        # the files live in 1-3 configuration directories under any of the three suffixes and the node is started with
+        # their NAMES (frappy-server f0,f1): to_config_path finds them; else: full paths
+        nd = rng.choice([1, 2, 3])
+        case['layout'] = {'ndirs': nd, 'files': [{'dir': rng.randrange(nd), 'suffix': rng.choice(SUFFIXES),
+                                                  'by': 'name' if rng.random() < 0.85 else 'path'} for _ in range(nfiles)]}
     if path == 'dsl':
         for mo in case['mods']:
             mo['desc'], mo['dsl'] = dsl_forms(rng, mo['entries'])
@@ -1477,7 +1592,12 @@ def effective_cfgs(case, classes, res=None):
             text += dsl_preamble([mo for _, mo in per_file[f]])
             for i, mo in per_file[f]:
                 text += dsl_mod_text(mo['name'], mo['cls'], mo['desc'], mo['dsl'], f'{f}.{i}')
-            p = os.path.join(base, f'f{f}_cfg.py')
+            lay = case.get('layout')
+            if lay:
+                os.makedirs(os.path.join(base, f'd{lay["files"][f]["dir"]}'), exist_ok=True)
+                p = os.path.join(base, f'd{lay["files"][f]["dir"]}', f'f{f}' + lay['files'][f]['suffix'])
+            else:
+                p = os.path.join(base, f'f{f}_cfg.py')
             with open(p, 'w', encoding='utf-8') as fh:
                 fh.write(text)
             paths.append(p)
@@ -1496,12 +1616,26 @@ def effective_cfgs(case, classes, res=None):
             logging.disable(logging.NOTSET)
         # the node is built by the real Server from these files (`Server.__init__` calls `load_config`): its module_cfg IS
         # the loaded, merged configuration
-        srv = make_server(paths, base)
+        lay, lookup = case.get('layout'), None
+        if lay:
+            for d in range(lay['ndirs']):
+                os.makedirs(os.path.join(base, f'd{d}'), exist_ok=True)
+            parsed = []
+            args = [f'f{f}' if lay['files'][f]['by'] == 'name' else paths[f] for f in range(case['nfiles'])]
+            srv = make_server(args, base, confdir=[os.path.join(base, f'd{d}') for d in range(lay['ndirs'])], parsed=parsed)
+            lookup = {'files': [split_path(p, base, lay['ndirs']) for p in paths], 'dirs': [f'd{d}' for d in range(lay['ndirs'])],
+                      'refs': [{'name': a} if os.sep not in a else {'path': split_path(a, base, 0)[1]} for a in args],
+                      'loaded': [split_path(p, base, lay['ndirs']) for p in parsed]}
+            lookup['files'] = [f if lay['files'][i]['by'] == 'name' else ['', split_path(paths[i], base, 0)[1]]
+                               for i, f in enumerate(lookup['files'])]
+            lookup['loaded'] = [f if f in lookup['files'] else ['', os.path.join(*f)] for f in lookup['loaded']]
+        else:
+            srv = make_server(paths, base)
         config = srv.module_cfg
         merged = {'modules': [[k, tag_of(v), origin_of(v)] for k, v in config.items() if k != 'node'],
                   'ambiguous': sorted(getattr(config, 'ambiguous', ['(the merged configuration has no attribute ambiguous)']))}
         return {k: v for k, v in config.items() if k != 'node'}, {
-            'files_obs': files_obs, 'files_raw': raw_lists, 'merged': merged, 'texts': texts, 'server': srv}
+            'files_obs': files_obs, 'files_raw': raw_lists, 'merged': merged, 'texts': texts, 'server': srv, 'lookup': lookup}
     finally:
         shutil.rmtree(base, ignore_errors=True)
 
@@ -1873,6 +2007,61 @@ def case_text(case):
     return ' | '.join(t.replace('\n', '; ') for t in out)[:500]
 
 
+def lookup_views(lk):
+    """the two observations of one start judged by `lookupB`: the files parsed (recorded at process_file) and the files
+    whose CONTENT is in the configuration the Server holds (first file: equipment id; every reference: its module)"""
+    views = [('parsed', lk['loaded'])]
+    if lk['loaded'] is not None:
+        views.append(('content', lk['content']))
+        views.append(('node-section', [lk['first']] + lk['content'][1:]))
+    return views
+
+
+def lookup_stream(ctx, res):
+    """which configuration file is applied (config.py: to_config_path / load_config through the real Server.__init__)"""
+    n = ctx.budget(150, 3000) * (3 if ctx.escalated else 1)
+    cases = [gen_lookup_case(ctx.rng) for _ in range(n)]
+    outs = [run_lookup_case(lc) for lc in cases]
+    reqs = []
+    for lk in outs:
+        lk['pos'] = len(reqs)
+        reqs.append(lookup_requests(lk)[0])
+        for _, loaded in lookup_views(lk):
+            reqs.append(lookup_requests(dict(lk, loaded=loaded))[1])
+    ans = ctx.driver.batch(reqs)
+    for x in ans:
+        if 'driver_error' in x:
+            raise RuntimeError(f'driver error: {x}')
+    for lc, lk in zip(cases, outs):
+        res.evaluations += 1
+        res.traces += 1
+        res.count('lookup.dirs=%d' % lc['ndirs'])
+        res.count('lookup.files-of-a-name=%d' % min(4, max([0] + [sum(1 for d, fn in lc['places'] if d is not None and fn in
+                                                                    [r['name'] + x for x in SUFFIXES]) for r in lc['refs'] if 'name' in r])))
+        res.count('lookup.outcome=' + ('not-found' if lk['loaded'] is None else 'loaded'))
+        if lk['loaded'] is not None:
+            for (d, fn), r in zip(lk['loaded'], lk['refs']):
+                res.count('lookup.found-in=' + ('path' if 'path' in r else 'dir%d' % lk['dirs'].index(d) if d in lk['dirs'] else '?'))
+                if 'name' in r:
+                    res.count('lookup.suffix=' + repr(fn[len(r['name']):]))
+            if len({fn for d, fn in lc['places'] if d is not None}) > 1 or len(lc['places']) > 1:
+                res.nontriv({'lookup': lc})
+        model = ans[lk['pos']]
+        if ctx.model_ok and model['loaded'] != lk['loaded']:
+            res.disagreements.append({'case': {'kind': 'lookup', 'case': lc}, 'model': model['loaded'], 'impl': lk['loaded']})
+        for i, (view, loaded) in enumerate(lookup_views(lk)):
+            judge = ans[lk['pos'] + 1 + i]
+            if not judge['ok']:
+                sig = 'C10:cfg-lookup:wrong-file-applied' if loaded is not None else 'C10:cfg-lookup:existing-file-not-found'
+                res.count('violation.' + sig)
+                res.violations.append({'sig': sig,
+                                       'what': f'{sig}: configuration directories {lk["dirs"]} (in this order) contain {lk["files"]}; '
+                                               f'started with {lk["refs"]} -> {view}: {loaded}; the files these references '
+                                               f'stand for: {judge["expected"]}',
+                                       'case': {'kind': 'lookup', 'case': lc}})
+                break
+
+
 def run(ctx):
     res = Result()
     res.rule = ('a case = one node: 1-4 modules of generated classes (1-5 parameters of double/int/string/bool/enum/array '
@@ -1929,6 +2118,8 @@ def run(ctx):
                 mpos = len(reqs)
                 reqs.append({'p': 'C10', 'k': 'merge', 'files': out['merge']['files_raw']})
                 reqs.append({'p': 'C10', 'k': 'judge_merge', 'files': out['merge']['files_obs'], 'merged': out['merge']['merged']})
+                if out['merge'].get('lookup'):
+                    reqs += lookup_requests(out['merge']['lookup'])
             yield origin, case, out, reqs, mpos
 
     def answered(chunk=40):
@@ -2095,10 +2286,27 @@ def run(ctx):
             mm = dict(model, ambiguous=sorted(model['ambiguous']))
             if ctx.model_ok and mm != out['merge']['merged']:
                 res.disagreements.append({'case': {'kind': 'node', 'case': case}, 'model': mm, 'impl': out['merge']['merged']})
+            lk = out['merge'].get('lookup')
+            if lk:
+                lmodel, ljudge = ans[mpos + 2], ans[mpos + 3]
+                res.evaluations += 1
+                res.traces += 1
+                res.count('node.files-found-by=' + '+'.join(sorted({'path' if 'path' in r else 'name' for r in lk['refs']})))
+                for d, fn in lk['loaded']:
+                    res.count('node.file-suffix=' + ('.py' if fn.endswith('.py') and not fn.endswith('_cfg.py') else
+                                                     '_cfg.py' if fn.endswith('_cfg.py') else 'none'))
+                if ctx.model_ok and lmodel['loaded'] != lk['loaded']:
+                    res.disagreements.append({'case': {'kind': 'node', 'case': case}, 'model': lmodel['loaded'], 'impl': lk['loaded']})
+                if not ljudge['ok']:
+                    res.violations.append({'sig': 'C10:cfg-lookup:wrong-file-applied',
+                                           'what': f'C10:cfg-lookup:wrong-file-applied: directories {lk["dirs"]} contain {lk["files"]}; '
+                                                   f'started with {lk["refs"]} -> parsed {lk["loaded"]}; expected {ljudge["expected"]}',
+                                           'case': {'kind': 'node', 'case': case}})
             if not judge['ok']:
                 res.violations.append({'sig': 'C10:merge:not-first-wins',
                                        'what': f'merged configuration: {out["merge"]["merged"]} from {out["merge"]["files_obs"]}',
                                        'case': {'kind': 'node', 'case': case}})
+    lookup_stream(ctx, res)
     res.notes.append(f'observation O01 (not demanded by the statement): {O01} registered modules had a configured value outside '
                      f'the limits: it is cached as start value, write_<p> is called once and refuses it (RangeError logged), the '
                      f'driver function is not reached')
@@ -2112,6 +2320,16 @@ def run(ctx):
 
 def replay(ctx, rp):
     case = rp['case']
+    if case['kind'] == 'lookup':
+        lk = run_lookup_case(case['case'])
+        bad = False
+        print('dirs   :', lk['dirs'], ' files:', lk['files'])
+        print('refs   :', lk['refs'])
+        for view, loaded in lookup_views(lk):
+            a = ctx.driver.batch(lookup_requests(dict(lk, loaded=loaded)))
+            print(f'{view:7s}:', loaded, ' model:', a[0]['loaded'], ' judge:', a[1])
+            bad = bad or not a[1]['ok']
+        return 1 if bad else 0
     if case['kind'] == 'module':
         r = run_single(case['spec'], case['name'], case['jcfg'])
         a = judge_module(ctx, r)
@@ -2146,4 +2364,8 @@ def replay(ctx, rp):
         a = ctx.driver.batch([{'p': 'C10', 'k': 'judge_merge', 'files': out['merge']['files_obs'], 'merged': out['merge']['merged']}])
         print('merge  :', out['merge']['merged'], a)
         bad = bad or any(not x.get('ok') for x in a)
+        if out['merge'].get('lookup'):
+            a = ctx.driver.batch(lookup_requests(out['merge']['lookup']))
+            print('lookup :', out['merge']['lookup'], a)
+            bad = bad or not a[1]['ok']
     return 1 if bad else 0
